@@ -57,14 +57,16 @@ Proof.
   assert (G2 : getc s2 h = with_state (getc s h) Closing) by exact G1.
   cbn [step established s2]. unfold recv_reset_response. cbn [rq_request s2]. rewrite Z.eqb_refl.
   cbn [closed_streams]. unfold chan_closed. cbn [table s2]. rewrite Et.
-  unfold set_ready. change (getc (set_table s2 (tdel (table s) i)) h) with (getc s2 h). rewrite G2.
+  cbv zeta. change (queue (set_table s2 (tdel (table s) i))) with (queue s).
+  set (X := set_queue (set_table s2 (tdel (table s) i)) (filter (fun it => negb (Nat.eqb (fst (fst it)) h)) (queue s))).
+  unfold set_ready. change (getc X h) with (getc s2 h). rewrite G2.
   cbn [with_state ch_state rstate_eqb rank Z.eqb Pos.eqb]. cbv beta iota zeta.
-  set (s3 := setc (set_table s2 (tdel (table s) i)) h (with_state (with_state (getc s h) Closing) Closed)).
+  set (s3 := setc X h (with_state (with_state (getc s h) Closing) Closed)).
   assert (E3 : transmit_reconfig (mkSt (established s3) (dc_id s3) (chans s3) (table s3) (queue s3) (rq_queue s3) None (rq_req_seq s3) (rq_resp_seq s3)) =
                (mkSt (established s3) (dc_id s3) (chans s3) (table s3) (queue s3) (rq_queue s3) None (rq_req_seq s3) (rq_resp_seq s3), [])) by reflexivity.
   rewrite E3. cbv beta iota zeta. cbn [fst snd app].
   assert (G3 : ch_state (nth h (chans s3) dummy) = Closed).
-  { unfold s3, setc. cbn [chans set_table s2 s1]. rewrite nth_upd, Nat.eqb_refl, upd_length, Hlt. reflexivity. }
+  { unfold s3, setc, X. cbn [chans set_table set_queue s2 s1]. rewrite nth_upd, Nat.eqb_refl, upd_length, Hlt. reflexivity. }
   split; [exact G3|]. split; [reflexivity|].
   assert (Ht3 : tget (tdel (table s) i) i = None) by (rewrite tget_tdel, Z.eqb_refl; reflexivity).
   split; [exact Ht3|].
